@@ -359,6 +359,13 @@ class World(Domain):
         # structural short-cuts on symbolic integers
         if isinstance(a, SymInt) and isinstance(b, SymInt) and a.t == b.t:
             return True, op in ("==", "<=", ">=")
+        if op in ("==", "!=") and (isinstance(a, SymStr) or isinstance(b, SymStr)) and \
+                (isinstance(a, (str, SymStr)) and isinstance(b, (str, SymStr))):
+            r = self._symstr_eq(a, b)
+            if r is not None:
+                if isinstance(r, tuple):
+                    return True, SymBool(r if op == "==" else ("not", r))
+                return True, (r if op == "==" else not r)
         if op in ("==", "!=") and self.is_node(a) and self.is_node(b):
             c = self.node_eq(a, b)
             if isinstance(c, tuple):
@@ -377,6 +384,32 @@ class World(Domain):
                         return True, not it.truth(r, "ne")
                     return True, r
         return False, None
+
+    @staticmethod
+    def _symstr_eq(a, b):
+        """Equality of a formatted name ("BV{%d}" % w) with a literal or another formatted name."""
+        def fmt(x):
+            if isinstance(x, SymStr) and x.parts and isinstance(x.parts[0], str) and "%" in x.parts[0]:
+                return x.parts[0], x.parts[1:]
+            return None
+        fa, fb = fmt(a) if isinstance(a, SymStr) else None, fmt(b) if isinstance(b, SymStr) else None
+        if isinstance(a, str) and fb:
+            a, b, fa, fb = b, a, fb, None
+        if fa and isinstance(b, str):
+            prefix = fa[0].split("%")[0]
+            if not b.startswith(prefix):
+                return False
+            return None
+        if fa and fb:
+            if fa[0] != fb[0]:
+                p1, p2 = fa[0].split("%")[0], fb[0].split("%")[0]
+                if not (p1.startswith(p2) or p2.startswith(p1)):
+                    return False
+                return None
+            if len(fa[1]) == len(fb[1]) == 1 and all(isinstance(v, (SymInt, int)) for v in (fa[1][0], fb[1][0])):
+                ta, tb = term_of(fa[1][0]), term_of(fb[1][0])
+                return True if ta == tb else ("==", ta, tb)
+        return None
 
     def node_eq(self, a, b):
         """Are two abstract nodes the same hash-consed object?  True / False / condition term:
